@@ -203,6 +203,7 @@ type Job struct {
 	Harness  string                 `json:"harness"`
 	Params   map[string]interface{} `json:"params"`
 	MapOrder string                 `json:"map_order,omitempty"`
+	Weight   int                    `json:"-"` // scheduling hint: heavier jobs start first
 	Open     []string               `json:"-"`
 	CoverModels bool                `json:"-"`
 }
@@ -307,6 +308,7 @@ func (w *Worker) RunJob(job Job) (res *JobResult) {
 
 // RunJobs runs the jobs on a pool of workers and returns results in job order.
 func (s *Session) RunJobs(jobs []Job, progress func(done, total int)) ([]*JobResult, *SolverStats, error) {
+	sort.SliceStable(jobs, func(i, j int) bool { return jobs[i].Weight > jobs[j].Weight })
 	n := s.Cfg.Workers
 	if n > len(jobs) {
 		n = len(jobs)
